@@ -176,13 +176,13 @@ class Linear(keras.layers.Layer):
 
     self.kernel_regularizer = []
     if kernel_regularizer:
-      if callable(kernel_regularizer):
+      if callable(kernel_regularizer) or isinstance(kernel_regularizer, (str, dict)):
         kernel_regularizer = [kernel_regularizer]
       for reg in kernel_regularizer:
         self.kernel_regularizer.append(keras.regularizers.get(reg))
     self.bias_regularizer = []
     if bias_regularizer:
-      if callable(bias_regularizer):
+      if callable(bias_regularizer) or isinstance(bias_regularizer, (str, dict)):
         bias_regularizer = [bias_regularizer]
       for reg in bias_regularizer:
         self.bias_regularizer.append(keras.regularizers.get(reg))
